@@ -23,6 +23,8 @@
 (*                            assignment on in walk order (ord); a path in front of it resolves as if it did not exist     *)
 (*   loop [path, oids, sid, body]  `.loop path { body }': the count is an ordinary use; the body is a scope that defines    *)
 (*                            `index' (which has no definition site: NoNode)                                               *)
+(*   test [name, body]        `.test "name" { body }': not part of the program; what stands in it is visible to nobody     *)
+(*                            else and denotes nothing the properties speak about (NoNode)                                *)
 (*   pad [n]                  n comment lines (layout only)                                                                *)
 (* Every table entry and occurrence also has a spelling group sp: the alias token of `a as x' and the uses of x denote   *)
 (* a's node (navigation) but are spelled x, so a rename at a touches the occurrences whose sp is a, a rename at x those  *)
@@ -168,6 +170,7 @@ OccsOf(prog, scope, file, files, tab, md) ==
                     {OccC(s.oid, IF k = "" THEN -1 ELSE md[k].oid, FALSE, file, scope, s.name, <<s.name>>, 1, TRUE)}
                     \cup (IF k = "" THEN {} ELSE OccsOf(md[k].body, CallScope(scope, s), file, files, tab, md))
                [] s.k = "use" -> UseOccs(tab, scope, file, s.path, s.oids)
+               [] s.k = "test" -> {[o EXCEPT !.node = NoNode, !.sp = NoNode] : o \in OccsOf(s.body, Append(scope, "$t" \o s.name), file, files, tab, md)}
                [] s.k = "blk" -> {Occ(s.oid, NoNode, FALSE, file, scope, "-", <<"-">>, 1)}     \* `bne -': the automatic block-start symbol, it has no name in the source
                [] s.k = "fuse" -> UseOccs(tab, scope, file, s.path, s.oids)                 \* `.file "{path}.bin"'
                [] s.k = "expr" -> UNION {UseOccs(tab, scope, file, s.paths[j], s.oidss[j]) : j \in 1..Len(s.paths)}
@@ -272,6 +275,9 @@ ReassignedVars(P) == {o.node : o \in {x \in P.occs : x.seg = 0}}
 (* removed at the start of a pass (all variables are), the analysis keeps its record under that index                    *)
 VarNodes(P) == {P.tab[k].oid : k \in {k \in DOMAIN P.tab : P.tab[k].kind = "var"}}
 SeveralVars(P, d) == d \in VarNodes(P) /\ Cardinality(VarNodes(P)) >= 2
+
+(* a file that is imported by two import statements of the entry file (witness of a recorded deviation) *)
+ImportedTwice(prog) == {prog[i].file : i \in {i \in 1..Len(prog) : prog[i].k = "import" /\ \E j \in 1..Len(prog) : j # i /\ prog[j].k = "import" /\ prog[j].file = prog[i].file}}
 
 (* the tokens of aliased items `a as x' of the (top-level) selective imports: witness of a recorded deviation only *)
 AliasedItems(prog) == UNION {{prog[i].items[j] : j \in {j \in 1..Len(prog[i].items) : prog[i].items[j].alias # ""}} :
